@@ -31,6 +31,7 @@ type target struct {
 	outcome         bool              // result is an Outcome (error-returning callbacks): nil -> .cont, ErrStopIteration -> .stop, a call -> .call
 	state           string            // when non-empty: the receiver is mutated; the definition returns (receiver, result)
 	optional        bool              // the Go result is a pointer: nil -> none, a value -> some
+	mayPanic        bool              // the body has an explicit panic: results are `some v`, the panic is `none`
 }
 
 var targets = []target{
@@ -41,6 +42,9 @@ var targets = []target{
 	{dir: "internal", name: "compareUint64", lean: "compareUint64", params: map[string]string{"v1": "Int", "v2": "Int"}, ret: "Int"},
 	{dir: "util", name: "BoolToInt", lean: "BoolToInt", params: map[string]string{"v": "Bool"}, ret: "Int"},
 	{dir: ".", name: "unaryCriteriaToRange", lean: "unaryCriteriaToRange", params: map[string]string{"c": "GUnary"}, ret: "Option GRange", optional: true},
+	{dir: "query", recv: "UnaryCriteria", name: "compare", lean: "UnaryCriteria_compare", params: map[string]string{"c": "GUnary", "doc": "Doc"}, ret: "Option Bool", mayPanic: true},
+	{dir: "query", recv: "UnaryCriteria", name: "eq", lean: "UnaryCriteria_eq", params: map[string]string{"c": "GUnary", "doc": "Doc"}, ret: "Bool"},
+	{dir: "query", recv: "UnaryCriteria", name: "exist", lean: "UnaryCriteria_exist", params: map[string]string{"c": "GUnary", "doc": "Doc"}, ret: "Bool"},
 	{dir: ".", recv: "skipLimitNode", name: "Callback", lean: "skipLimitNode_Callback", params: map[string]string{"nd": "GSkipLimit", "doc": ""}, ret: "Outcome", outcome: true, state: "nd"},
 }
 
@@ -56,7 +60,8 @@ var namedConsts = map[string]bool{"query.ExistsOp": true, "query.EqOp": true, "q
 	"query.LtOp": true, "query.LtEqOp": true, "query.LikeOp": true, "query.InOp": true, "query.ContainsOp": true, "query.FunctionOp": true}
 
 // calls with a model counterpart, by the Lean type of their argument
-var knownCalls = map[string]string{"isFieldReference": "Operand.isRef"}
+var knownCalls = map[string]string{"isFieldReference": "Operand.isRef", "getFieldOrValue": "deref", "doc.Get": "Doc.get doc", "doc.Has": "Doc.has doc"}
+var knownCallTypes = map[string]string{"isFieldReference": "Bool", "getFieldOrValue": "Value", "doc.Get": "Value", "doc.Has": "Bool"}
 
 // Go composite literal type -> generated structure
 var literalTypes = map[string]string{"Range": "GRange", "index.Range": "GRange"}
@@ -84,6 +89,9 @@ func (x *tr) typeOf(e ast.Expr) string {
 		if v.Name == "true" || v.Name == "false" {
 			return "Bool"
 		}
+		if x.t.dir == "query" && namedConsts["query."+v.Name] {
+			return "String"
+		}
 		return x.types[v.Name]
 	case *ast.SelectorExpr:
 		if id, ok := v.X.(*ast.Ident); ok {
@@ -106,8 +114,8 @@ func (x *tr) typeOf(e ast.Expr) string {
 		if callee(v) == "internal.Compare" {
 			return "Int"
 		}
-		if _, ok := knownCalls[callee(v)]; ok {
-			return "Bool"
+		if t, ok := knownCallTypes[callee(v)]; ok {
+			return t
 		}
 	case *ast.UnaryExpr:
 		if v.Op == token.NOT {
@@ -146,6 +154,9 @@ func (x *tr) expr(e ast.Expr) string {
 			return "Value.null"
 		case "true", "false":
 			return v.Name
+		}
+		if x.t.dir == "query" && namedConsts["query."+v.Name] {
+			return "\"" + v.Name + "\""
 		}
 		if _, ok := x.types[v.Name]; !ok {
 			return x.fail("unknown identifier %s", v.Name)
@@ -187,6 +198,8 @@ func (x *tr) expr(e ast.Expr) string {
 		case token.EQL, token.NEQ:
 			var s string
 			switch {
+			case isNil(v.Y) && x.typeOf(v.X) == "Err":
+				s = "(!" + l + ")" // err == nil
 			case isNil(v.Y) && x.typeOf(v.X) == "Operand":
 				s = "Operand.isNilLit " + l
 			case x.typeOf(v.X) == "String" || x.typeOf(v.Y) == "String":
@@ -219,8 +232,12 @@ func (x *tr) expr(e ast.Expr) string {
 		if callee(v) == "internal.Compare" && len(v.Args) == 2 {
 			return "(goCmp " + x.expr(v.Args[0]) + " " + x.expr(v.Args[1]) + ")"
 		}
-		if fn, ok := knownCalls[callee(v)]; ok && len(v.Args) == 1 {
-			return "(" + fn + " " + x.expr(v.Args[0]) + ")"
+		if fn, ok := knownCalls[callee(v)]; ok {
+			args := []string{}
+			for _, a := range v.Args {
+				args = append(args, x.expr(a))
+			}
+			return "(" + fn + " " + strings.Join(args, " ") + ")"
 		}
 		return x.fail("call %s in an expression", callee(v))
 	case *ast.CompositeLit:
@@ -269,7 +286,10 @@ func (x *tr) result(e ast.Expr) string {
 		if id, ok := e.(*ast.Ident); ok && id.Name == "nil" {
 			return "none"
 		}
-		return "some " + x.expr(e)
+		return "some (" + x.expr(e) + ")"
+	}
+	if x.t.mayPanic {
+		return "some (" + x.expr(e) + ")"
 	}
 	if !x.t.outcome {
 		return x.expr(e)
@@ -355,7 +375,24 @@ func (x *tr) stmt(s ast.Stmt, ind string, out *[]string) {
 			}
 			break
 		}
+	case *ast.ExprStmt:
+		if c, ok := v.X.(*ast.CallExpr); ok && callee(c) == "panic" && x.t.mayPanic {
+			*out = append(*out, ind+x.ret("none"))
+			return
+		}
+		x.fail("expression statement")
 	case *ast.AssignStmt:
+		if len(v.Lhs) == 2 && len(v.Rhs) == 1 && v.Tok == token.DEFINE {
+			// v, err := internal.Normalize(e): the operands of the model are normalised values (Normalize is the identity on
+			// them and does not fail: C18's theorems); the error variable is kept, as the constant "no error"
+			if c, ok := v.Rhs[0].(*ast.CallExpr); ok && callee(c) == "internal.Normalize" && len(c.Args) == 1 {
+				x.assign(v.Lhs[0], x.expr(c.Args[0]), true, x.typeOf(c.Args[0]), ind, out)
+				en := v.Lhs[1].(*ast.Ident).Name
+				x.types[en] = "Err"
+				*out = append(*out, ind+"let mut "+en+" : Bool := false")
+				return
+			}
+		}
 		if len(v.Lhs) != 1 || len(v.Rhs) != 1 {
 			x.fail("multiple assignment")
 			return
